@@ -29,7 +29,7 @@ CHECKS = {
         text="Theorems (Coq, every dimension kind 1..4, all extents, all points, all values, all store/load sequences): get(set g p v) p = v, "
              "other cells unchanged, fresh grid reads default, a load returns the most recent store (run_model = run_spec), out-of-bounds by the code's per-axis "
              "condition panics; proved once for a generic array level and instantiated four times with the code's coordinate order. Model tied to the safe and the unsafe "
-             "Grid builds by differential runs (all-pairs sweeps on 32 shapes, random sequences, OOB).",
+             "Grid builds by differential runs (all-pairs sweeps on 32 shapes, random sequences, OOB), also with an element type whose Default is not the all-zero bit pattern, and on grids that are used on after caught out-of-bounds panics.",
         note=LEVEL_NOTE_COMMON + "Axioms: none. Nested fixed-size arrays modelled as nested lists; RefCell / raw-pointer write as plain update; single-threaded.",
         technique="Coq proof (generic level laws lifted through 4 nesting levels; induction over op sequences) + differential correspondence (safe and unsafe builds)",
         design="§7 C17"),
@@ -108,7 +108,9 @@ CHECKS = {
         text="Theorems (Coq, every call on every model and state, hence every history): after a run every activation cell holds the verdict of the most recent non-erroring evaluation of "
              "its causaloid in that run and is unchanged when it was not evaluated (or only errored); wrappers are active iff a member is; number / percent / all-active and the "
              "active / inactive filters are recounts. Correspondence after every call of histories with varying data (flags of every causaloid, all aggregates, call log); oracles: "
-             "recount laws on the implementation's own flags, and the singleton law whenever the implementation evaluated the same sequence as the model.",
+             "recount laws on the implementation's own flags, and the singleton law whenever the implementation evaluated the same sequence as the model. Further phases on the implementation's own output "
+             "(the Coq model covers add-only, non-empty structures): graphs with causaloids removed and re-added (recount over the live members, freshness of returned indices, reachability, shortest-path reasoning), empty collections; "
+             "activation is read through both routes (is_active and the active() getter).",
         note=LEVEL_NOTE_COMMON + "Axioms: none. Distinct causaloids have distinct activation cells (clones share; the generator builds distinct ones).",
         technique="Coq proof (log/activation invariant by induction on fuel) + differential correspondence after every call + recount oracle",
         design="§7 C11"),
@@ -188,7 +190,7 @@ CHECKS = {
              "publish() a separate step, any interleaving, consumers moving at any time, any N >= 1: the cursor never covers a sequence whose claimant has not published it (cursor_only_published), "
              "never decreases, concurrent claims are disjoint; and the stranding of finding D8 is a reachable interleaving (stranding_reachable). Every multi-producer execution explored under the scheduler is replayed on that model (Disruptor/MultiReplay.v: claims, bit sets / clears, scan tests, cursor CAS attempts and watermark accesses must be enabled steps with the model's values; an accepted trace ends in a reachable state, in which the cursor covers only published sequences: replay_cursor_only_published). (c) single-producer pipeline: cursor never covers an unwritten sequence. The SAME extracted [check] judges the "
              "implementation's histories (harness/ds seqapi: real sequencers driven directly), whose outputs are also compared with the extracted model; monitors on every explored concurrent schedule "
-             "(multi producer with 2-3 writer threads, rings of 2..128 slots).",
+             "(multi producer with 2-3 writer threads, rings of 2..128 slots). Back-pressure probes: a claim that must wait by the capacity rule is issued anyway and must not return (sequencers with 0, 1, 2 gating sequences).",
         note=LEVEL_NOTE_COMMON + "Axioms: none. " + "the deterministic scheduler hooks (cfg deepcausality_rs_deep_causality_verif) make every atomic / mutex / condvar operation and slot access of the real code a scheduling point and log it with its real Ordering; The multi-producer publish path is proved both sequentially against the BitMap word model (SeqApi) and under true concurrency against the bitmap's specification (one bit per residue, C19) in MultiPub; C11 stale reads are not part of that interleaving model.",
         technique="Coq proof (CAS histories; sequential sequencer models with a bitmap-window invariant; proved-about property checker applied to implementation histories) + trace monitors under a deterministic scheduler",
         design="§7.R C14"),
